@@ -227,7 +227,7 @@ def _history_violations(inp, outp):
                 bw_stable = True
             if op[0] == 'E':
                 f = op[1:].split(':')
-                if len(f) == 9:
+                if len(f) == 10:
                     why = _packet_violation(int(hdr[2]), nch, pc, int(f[0]), int(f[2]), int(f[4]), int(f[5]), int(f[6]),
                                             since_mono, bw_stable)
                     if why:
@@ -326,6 +326,25 @@ def _create_violation(inp, outp):
         if outp.split()[0] != exp:
             return ('ctl-create', inp, exp, outp, 'init must accept exactly the documented rates/channels/applications')
         return None
+    if tok[2] in ('projenc', 'mssur'):
+        # acceptance tables of the surround / projection constructors (RFC 7845 5.1.1, RFC 8486 3.1/3.2), independent
+        # of the Lean model: which (family, channels) define a layout, and the documented error kinds
+        fs, ch, fam, app, failk = int(tok[3]), int(tok[4]), int(tok[5]), int(tok[6]), int(tok[7])
+        okargs = fs in (8000, 12000, 16000, 24000, 48000) and app in (2048, 2049, 2051)
+        ambi = any(ch in (n * n, n * n + 2) for n in range(1, 16)) and ch <= 227
+        if tok[2] == 'projenc':
+            legal = fam == 3 and ch in (4, 6, 9, 11, 16, 18, 25, 27, 36, 38)
+            exp = 'ALLOC_FAIL' if (not legal or failk == 0) else ('OK' if okargs else 'BAD_ARG')
+        else:
+            legal = (fam == 0 and ch in (1, 2)) or (fam == 1 and 1 <= ch <= 8) or (fam == 255 and 1 <= ch <= 255) or \
+                    (fam == 2 and ambi)
+            exp = 'BAD_ARG' if not 1 <= ch <= 255 else 'UNIMPLEMENTED' if not legal else 'ALLOC_FAIL' if failk == 0 else \
+                  ('OK' if okargs else 'BAD_ARG')
+        if outp.split()[0] != exp:
+            return ('ctl-create', inp, exp, outp[:200], '%s encoder creation must succeed exactly for the channel counts its '
+                    'mapping family defines (and report the documented error otherwise)' %
+                    ('projection (family 3)' if tok[2] == 'projenc' else 'surround'))
+        return None
     if tok[2] in ('enc', 'dec'):
         fs, ch = int(tok[3]), int(tok[4])
         legal = fs in (8000, 12000, 16000, 24000, 48000) and ch in (1, 2)
@@ -378,8 +397,14 @@ def _shrink(ctx, v):
             return None
         budget[0] -= 1
         # strip recorded results from E ops: E<fsz>:<bytes>:<sig>:<seed>
-        line = ' '.join(hdr + [(lambda f: 'E%s:%s:0:0:%s:%s' % (f[0], f[1], f[-2], f[-1]))(t[1:].split(':')) if t[0] == 'E' and
-                               t.count(':') >= 3 else t for t in cand])
+        def bare(t):
+            f = t[1:].split(':')
+            if t[0] != 'E' or len(f) < 4:
+                return t
+            if tok[1] == 'enc':          # …:<sig>:<seed>:<fmt>
+                return 'E%s:%s:0:0:0:%s:%s:%s' % (f[0], f[1], f[-3], f[-2], f[-1])
+            return 'E%s:%s:0:0:%s:%s' % (f[0], f[1], f[-2], f[-1])
+        line = ' '.join(hdr + [bare(t) for t in cand])
         i2, o2 = _replay_history(h, line)
         if i2 is None:
             return None
